@@ -217,6 +217,9 @@ func RunCheck(id, tier string) int {
 		}
 	}
 
+	if deadline > 0 {
+		hardStopAt = t0.Unix() + int64(deadline) + 120
+	}
 	work := make(chan Unit)
 	results := make(chan *UnitResult, 64)
 	var wg sync.WaitGroup
@@ -613,12 +616,18 @@ func trunc(s string, n int) string {
 	return s
 }
 
+// hardStopAt: deadline + 120 s, handed to the workers (see Worker.pastHardStop).
+var hardStopAt int64
+
 func runWorkerProc(exe, id, tier string, work <-chan Unit, results chan<- *UnitResult) {
 	for {
 		// (re)start a worker process; it serves units until the channel closes or it dies
 		cmd := exec.Command(exe, "worker", id, tier)
 		cmd.Stderr = os.Stderr
 		cmd.Env = append(os.Environ(), "GOMAXPROCS=2")
+		if hardStopAt != 0 {
+			cmd.Env = append(cmd.Env, fmt.Sprintf("VERIF_HARD_STOP=%d", hardStopAt))
+		}
 		stdin, _ := cmd.StdinPipe()
 		stdout, _ := cmd.StdoutPipe()
 		if err := cmd.Start(); err != nil {
